@@ -140,7 +140,7 @@ func init() {
 		return runT(r, &TSpec{
 			ID: "C03", Test: "TestC03", Checks: [2]int{6000, 100000}, Shards: [2]int{16, 16}, Fuzz: "FuzzFrontRoundTrip", FuzzTime: 150 * time.Second,
 			Rule:        "ASTs of all node kinds (profile frontend: recovery/throw, code predicates, state blocks, display names, initializer, adversarial identifiers) drawn by rapid and spelled with rapid-drawn concrete syntax: white space / newline / tab / CRLF / line and block comment placement, the terminators ; newline EOF, the four definition operators, three literal quotings with every escape form (simple, octal, \\x, \\u, \\U, quote escapes), i suffix, classes with interleaved characters / ranges / \\pX / \\p{Name} / escapes / leading ^ and -, code blocks with nested braces, strings, rune literals and comments, minimal or redundant parentheses; oracle (i) construction round trip: the AST the front-end returns equals the drawn AST including the position (line:col(offset)) of the first token of every rule, expression, label, code block and display name; (ii) print round trip: for every accepted text (spelled, mutated-but-accepted, and every .peg file of the repository) parse(print(parse(t))) equals parse(t) up to positions; (iii) every 50th text through main() -x. Non-trivial = >=3 node kinds and >=1 non-default spelling feature. Thorough tier adds native coverage-guided fuzzing of the print round trip.",
-			Assumptions: append([]string{"the binding strengths and the meaning of every spelling are taken from doc.go and grammar/pigeon.peg; the speller only produces spellings the documentation defines (no //{ comments, no unterminated tokens, hyphen members only as first class member)"}, toolAssumptions...),
+			Assumptions: append([]string{"the binding strengths and the meaning of every spelling are taken from doc.go and grammar/pigeon.peg; the speller only produces spellings the documentation defines (between expressions no comment starts with //{ - that is the recovery operator; inside code blocks it is an ordinary comment; no unterminated tokens; a member hyphen is first in its class or escaped)"}, toolAssumptions...),
 		})
 	})
 }
